@@ -1,3 +1,4 @@
+pub mod create;
 pub mod hyper;
 pub mod npy;
 pub mod spec;
